@@ -1,4 +1,5 @@
 """C05 Layout preservation and edit locality (only the structural clauses; see DESIGN.md section 3, C05)"""
+import re
 from . import genrules, plumbing, mir, sym, diag
 
 CURSOR_FNS = ("tokenizer::tokenize_core", "tokenizer::handle_a2ml", "tokenizer::find_block_comment_end", "tokenizer::find_string_end", "tokenizer::count_newlines")
@@ -14,6 +15,59 @@ def cursor_table(prog):
             out[fid] = rows
     return out
 
+
+
+CONSUME = re.compile(r"parser::(ParserState::(get_token|expect_token|get_identifier|get_string|get_string_maxlen|get_integer|get_float|get_double|get_next_tag_or_comment)|TokenIter::next)$")
+REWIND = re.compile(r"parser::(ParserState::(undo_get_token|set_tokenpos)|TokenIter::back)$")
+NEUTRAL = re.compile(r"(get_line_offset|get_incfilename|get_token_text|get_next_id|get_current_line_offset|error_or_log|log_warning|peek_token|get_tokenpos)$")
+OFFSET_AFTER_REWIND_OK = {
+    # documented hack in the source: step back one token to measure the offset of the /end token of the block, then step forward again
+    "ifdata::parse_unknown_ifdata_start": "rewind:undo_get_token",
+}
+
+
+def r05_token(chk, rule="R05-token"):
+    """hand-written parsers: get_line_offset() measures the token consumed last, so on every path the last operation that moved the
+    token cursor before a get_line_offset() call is the call that consumed the value's own token (not a rewind, not another parser)"""
+    from .common import Finding
+    prog = mir.prog()
+    n = 0
+    for fid, b in sorted(prog.bodies.items()):
+        if b.file == "a2lfile/src/specification.rs":
+            continue
+        sites = [(bi, t) for bi, t in b.calls() if mir.strip_generics(t.get("res") or "").endswith("::get_line_offset")]
+        if not sites:
+            continue
+        st = [None] * len(b.blocks)
+        st[0] = frozenset(["entry"])
+        work = [0]
+        succ = b.succ()
+        while work:
+            x = work.pop()
+            o = st[x]
+            t = b.blocks[x]["t"]
+            if t["k"] == "call":
+                nm = mir.strip_generics((t.get("res") or "").lstrip("?"))
+                if CONSUME.search(nm):
+                    o = frozenset(["consume:" + nm.split("::")[-1]])
+                elif REWIND.search(nm):
+                    o = frozenset(["rewind:" + nm.split("::")[-1]])
+                elif nm in prog.bodies and (nm.startswith("ifdata::") or nm.startswith("parser::ParserState")) and not NEUTRAL.search(nm):
+                    o = frozenset(["other:" + nm.split("::")[-1]])
+            for y in succ[x]:
+                if b.blocks[y]["cleanup"]:
+                    continue
+                new = o if st[y] is None else st[y] | o
+                if new != st[y]:
+                    st[y] = new
+                    work.append(y)
+        for bi, t in sites:
+            n += 1
+            for last in sorted(st[bi] or ["unreachable"]):
+                if last.startswith("consume:") or OFFSET_AFTER_REWIND_OK.get(mir.strip_generics(fid)) == last:
+                    continue
+                chk.add(Finding(rule, "%s::%s::%s" % (rule, mir.strip_generics(fid), last), "%s reads a line offset when the last operation on the token cursor was `%s`: the offset belongs to a different token than the value stored with it, so the value is written on the wrong line" % (fid, last), b.where(t["ln"])))
+    chk.rule(rule, "get_line_offset() calls in hand-written parsers whose last preceding cursor operation on every path consumed the value's own token", n, floor=20)
 
 
 def r05_adjacent(chk, rule="R05-adjacent"):
@@ -53,6 +107,7 @@ def run(chk):
                              "generated stringify/new items identical (canonical form) to the generator's output")
     plumbing.r05_plumb(chk)
     r05_adjacent(chk)
+    r05_token(chk)
     from . import writertab
     writertab.compare(chk, "R05-writer", fn_filter=lambda fn: fn.split("::")[-1] in ("add_whitespace", "add_group", "add_str_raw", "add_quoted_string", "add_str"), floor=30)
     diag.compare(chk, "R05-cursor", "cursor", cursor_table(mir.prog()), "steps of the tokenizer's scan position / line counter with their control predicates (which bytes end a token, what is trimmed before /end A2ML), compared with the reviewed table", floor=29)
